@@ -8,12 +8,15 @@ Ltac Zify.zify_post_hook ::= Z.div_mod_to_equations.
 Close Scope N_scope.
 Open Scope nat_scope.
 
+Section ExtraM.
+Variable extra : nat.
+
 (* the masked block is the 64-bit window of the list *)
-Lemma effective_word_is_word bs wi : effective_word bs (nwords (length bs)) wi = word bs wi.
+Lemma effective_word_is_word bs wi : effective_word bs ((nwords (length bs) + extra)) wi = word bs wi.
 Proof.
   unfold effective_word.
-  assert (Hw : (if wi <? nwords (length bs) then word bs wi else []) = word bs wi).
-  { destruct (Nat.ltb_spec wi (nwords (length bs))); [reflexivity|]. rewrite word_past by assumption. reflexivity. }
+  assert (Hw : (if wi <? (nwords (length bs) + extra) then word bs wi else []) = word bs wi).
+  { destruct (Nat.ltb_spec wi ((nwords (length bs) + extra))); [reflexivity|]. rewrite word_past by lia. reflexivity. }
   rewrite Hw.
   destruct (Nat.ltb_spec (length bs) (wi * 64 + 64)) as [Hpart|Hfull]; cbn [andb].
   - destruct (Nat.ltb_spec (wi * 64) (length bs)) as [Hin|Hout].
@@ -25,14 +28,14 @@ Proof.
 Qed.
 
 Lemma mx_line_cons bs line j t r :
-  mx_line bs (nwords (length bs)) line (j :: t) r =
-  let '(l2, ws, tot) := mx_line bs (nwords (length bs)) line t (r + seg bs (64 * (line * 4 + j)) 64) in
+  mx_line bs ((nwords (length bs) + extra)) line (j :: t) r =
+  let '(l2, ws, tot) := mx_line bs ((nwords (length bs) + extra)) line t (r + seg bs (64 * (line * 4 + j)) 64) in
   ((r mod 256) :: l2, word bs (line * 4 + j) :: ws, tot).
 Proof. cbn [mx_line]. rewrite effective_word_is_word, word_count. reflexivity. Qed.
 
 Lemma mx_line_unfold bs line :
   let c := fun j => seg bs (256 * line) (64 * j) in
-  mx_line bs (nwords (length bs)) line (seq 0 4) 0 =
+  mx_line bs ((nwords (length bs) + extra)) line (seq 0 4) 0 =
   ([c 0 mod 256; c 1 mod 256; c 2 mod 256; c 3 mod 256],
    [word bs (line * 4 + 0); word bs (line * 4 + 1); word bs (line * 4 + 2); word bs (line * 4 + 3)], c 4).
 Proof.
@@ -42,14 +45,14 @@ Proof.
     rewrite seg_add. f_equal. f_equal. lia. }
   assert (Hc0 : c 0 = 0) by reflexivity.
   cbn [seq].
-  replace (mx_line bs (nwords (length bs)) line [0; 1; 2; 3] 0)
-    with (mx_line bs (nwords (length bs)) line [0; 1; 2; 3] (c 0)) by (rewrite Hc0; reflexivity).
+  replace (mx_line bs ((nwords (length bs) + extra)) line [0; 1; 2; 3] 0)
+    with (mx_line bs ((nwords (length bs) + extra)) line [0; 1; 2; 3] (c 0)) by (rewrite Hc0; reflexivity).
   do 4 (rewrite mx_line_cons, Hc). cbn [mx_line]. reflexivity.
 Qed.
 
 Lemma mx_lines_spec bs : forall n i cum,
   cum = rank1 bs (256 * i) ->
-  let '(lines, total) := mx_lines bs (nwords (length bs)) n i cum in
+  let '(lines, total) := mx_lines bs ((nwords (length bs) + extra)) n i cum in
   length lines = n /\ total = rank1 bs (256 * (i + n)) /\
   forall k, k < n ->
     let l := nth k lines mx_dflt in
@@ -61,7 +64,7 @@ Proof.
   - split; [reflexivity|]. split; [rewrite Hcum; f_equal; lia|]. intros k Hk. lia.
   - pose proof (mx_line_unfold bs i) as Hl. cbv zeta in Hl. rewrite Hl.
     specialize (IH (S i) (cum + seg bs (256 * i) (64 * 4))).
-    destruct (mx_lines bs (nwords (length bs)) n (S i) (cum + seg bs (256 * i) (64 * 4))) as [rest total].
+    destruct (mx_lines bs ((nwords (length bs) + extra)) n (S i) (cum + seg bs (256 * i) (64 * 4))) as [rest total].
     destruct IH as (Hlen & Htot & Hks).
     { rewrite Hcum. replace (256 * S i) with (256 * i + 64 * 4) by lia. rewrite rank1_seg. reflexivity. }
     split; [cbn [length]; lia|]. split; [rewrite Htot; f_equal; lia|].
@@ -78,7 +81,7 @@ Qed.
 Definition mx_nl (bs : list bool) (other : nat) : nat := (Nat.max (length bs) other + 256 - 1) / 256.
 
 Lemma mx_build_spec bs other :
-  let m := mx_build bs other in
+  let m := mx_build bs extra other in
   let nl := mx_nl bs other in
   mx_size m = length bs /\ mx_max_rank1 m = count1 bs /\ length (mx_ls m) = nl /\ length bs <= 256 * nl /\
   forall k, k < nl ->
@@ -89,7 +92,7 @@ Lemma mx_build_spec bs other :
 Proof.
   cbv zeta. unfold mx_build, mx_nl.
   pose proof (mx_lines_spec bs ((Nat.max (length bs) other + 256 - 1) / 256) 0 0 eq_refl) as Hb.
-  destruct (mx_lines bs (nwords (length bs)) ((Nat.max (length bs) other + 256 - 1) / 256) 0 0) as [lines cum].
+  destruct (mx_lines bs ((nwords (length bs) + extra)) ((Nat.max (length bs) other + 256 - 1) / 256) 0 0) as [lines cum].
   destruct Hb as (Hlen & Htot & Hk). cbn [Nat.add mx_size mx_max_rank1 mx_ls] in *.
   assert (Hnl : length bs <= 256 * ((Nat.max (length bs) other + 256 - 1) / 256)) by lia.
   split; [reflexivity|]. split; [rewrite Htot; apply rank1_all; lia|]. split; [exact Hlen|]. split; [exact Hnl|].
@@ -97,7 +100,7 @@ Proof.
 Qed.
 
 Theorem mx_rank1_correct_proof bs other p :
-  p <= length bs -> mx_rank1 (mx_build bs other) p = Some (rank1 bs p).
+  p <= length bs -> mx_rank1 (mx_build bs extra other) p = Some (rank1 bs p).
 Proof.
   intros Hp. destruct (mx_build_spec bs other) as (Hsize & Hmr & Hlen & Hnl & Hk).
   unfold mx_rank1. rewrite Hsize, Hlen, Hmr.
@@ -116,20 +119,20 @@ Proof.
 Qed.
 
 Theorem mx_rank0_correct_proof bs other p :
-  p <= length bs -> mx_rank0 (mx_build bs other) p = Some (rank0 bs p).
+  p <= length bs -> mx_rank0 (mx_build bs extra other) p = Some (rank0 bs p).
 Proof.
   intros Hp. unfold mx_rank0. rewrite mx_rank1_correct_proof by exact Hp.
   pose proof (rank0_rank1 bs p Hp). f_equal. lia.
 Qed.
 
-Theorem mx_rank1_refuses_proof bs other p : length bs < p -> mx_rank1 (mx_build bs other) p = None.
+Theorem mx_rank1_refuses_proof bs other p : length bs < p -> mx_rank1 (mx_build bs extra other) p = None.
 Proof.
   intros Hp. destruct (mx_build_spec bs other) as (Hsize & _).
   unfold mx_rank1. rewrite Hsize. replace (length bs <? p) with true by (symmetry; apply Nat.ltb_lt; lia). reflexivity.
 Qed.
 
 Theorem mx_get_correct_proof bs other i :
-  mx_get (mx_build bs other) i = if length bs <=? i then None else Some (nth i bs false).
+  mx_get (mx_build bs extra other) i = if length bs <=? i then None else Some (nth i bs false).
 Proof.
   destruct (mx_build_spec bs other) as (Hsize & _ & _ & Hnl & Hk).
   unfold mx_get. rewrite Hsize. destruct (Nat.leb_spec (length bs) i) as [|Hlt]; [reflexivity|].
@@ -139,7 +142,7 @@ Proof.
 Qed.
 
 Theorem mx_count_ones_proof bs other :
-  mx_max_rank1 (mx_build bs other) = count1 bs /\ mx_size (mx_build bs other) = length bs.
+  mx_max_rank1 (mx_build bs extra other) = count1 bs /\ mx_size (mx_build bs extra other) = length bs.
 Proof. destruct (mx_build_spec bs other) as (Hsize & Hmr & _). split; assumption. Qed.
 
 Lemma mx_scan1_skip block target dl pre j0 post :
@@ -155,10 +158,10 @@ Proof.
     apply IH; [|exact Hhit]. intros j' Hj'. apply Hpre. right. exact Hj'.
 Qed.
 
-Theorem mx_select1_correct_proof bs other k : mx_select1 (mx_build bs other) k = select1 bs k.
+Theorem mx_select1_correct_proof bs other k : mx_select1 (mx_build bs extra other) k = select1 bs k.
 Proof.
   destruct (mx_build_spec bs other) as (Hsize & Hmr & Hlen & Hnl & Hk).
-  set (m := mx_build bs other) in *. set (nl := mx_nl bs other) in *.
+  set (m := mx_build bs extra other) in *. set (nl := mx_nl bs other) in *.
   unfold mx_select1. rewrite Hmr, Hlen.
   destruct (Nat.leb_spec (count1 bs) k) as [Hge|Hlt].
   { destruct (select1 bs k) as [p|] eqn:E; [|reflexivity].
@@ -209,3 +212,4 @@ Proof.
     assert (seg bs (256 * block) (64 * S j0) <= seg bs (256 * block) (64 * j)) by (apply seg_mono; lia). lia.
   - rewrite H2 by lia. lia.
 Qed.
+End ExtraM.
